@@ -7,11 +7,13 @@ STATEMENT
   and ends with a newline is used as given; otherwise trailing blanks are cut and a newline is supplied when the
   newline is missing, and "# " is put in front of the text (leading blanks cut) when the '#' is missing; '' is the
   empty comment line "#"; a string with an embedded newline is refused (ValueError) -- and a refused call changes
-  nothing.  The comment of the written field is what the call says: kept (no keyword / preserve...=True: the very
-  same Deb822CommentElement object stays with the field), dropped (preserve...=False or an empty list), the
-  normalised lines in order, or the very element object handed in (an element whose last line lacks the newline is
-  refused, also by the comment_element setter); both keywords together are refused; preserve...=True on an ambiguous
-  name raises AmbiguousDeb822FieldKeyError.  Position and spelling of an existing field are kept, a new field is
+  nothing.  The comment of the written field is what the call says: kept (no keyword / preserve...=True: the same
+  lines -- the model keeps the same Deb822CommentElement object; a new object with the same lines is accepted and
+  reported as a diagnostic only, the documentation does not promise the object), dropped (preserve...=False or an
+  empty list), the normalised lines in order, or the very element object handed in ("reuse of an existing element";
+  an element whose last line lacks the newline is refused, also by the comment_element setter, whose getter returns
+  the object that was set); both keywords together are refused; preserve...=True on an ambiguous name raises
+  AmbiguousDeb822FieldKeyError.  Position and spelling of an existing field are kept, a new field is
   appended, every other field, paragraph and held element stays exactly as it was; an element object is in one
   place only and parent_element of every field / comment element names the paragraph / field that holds it.
   Comments move and disappear with their field: delete, order_first/last, sort_fields, from_kvpairs move or drop
@@ -53,10 +55,11 @@ spec:     spec/CommentNorm.tla        the comment rule on token sequences <<clas
           spec/StockFormat.tla        Ship (transcription of the stock formatter on token streams), FFOut (verdict +
                                       exact PIECES: newline, k spaces, token p, separator), Contract, ShapeOK,
                                       ReReads (reference reader Split / Valid of ListView.tla, C11), TokProps
-          spec/StockFormatMC.tla      every stream of <= 3 (4) tokens x 4 separators x name lengths x 2 forms:
+          spec/StockFormatMC.tla      every stream of <= 3 (4) tokens x 4 separators x name lengths {1, 73} ({1, 2, 9, 73}) x 2 forms:
                                       InvLayout, CASE and TOK lines
           spec/TraceStockFormat.tla   trace validation of recorded format_field calls (names to 8193, 1000 tokens)
-negative controls (each re-run in every check; TLC must report the named property):
+negative controls (all re-run in the thorough tier, the first and a rotating half of the others in the quick tier; TLC
+          must report the named property):
           CommentNormMC_asbuilt.cfg -> ASSUME LawsHold false (TLC FINDS X17-blank-comment-line);
           FieldComment Neg = StoreBroken -> InvLinesWF, ElemStays -> InvOwnership, MoveLeavesComment -> MovesWhole,
           ErrDropsComment -> ErrAtomic, KeepCopies -> InvModeAlgebra;
@@ -66,7 +69,7 @@ binding:  spec -> code: (1) NORM lines through the three entry points of the com
           and dup replayed on a world BUILT for its from-state (document parsed through one of 6 input forms, handles
           taken by identity, held elements made two ways), random walks and ALL paths of ctor with long-lived objects,
           new_empty_file() + append at the end of every ctor path; (3) CASE lines through format_field (list / iterator
-          / generator, positional / keyword), through the generator itself (yielded tokens by IDENTITY), read back by
+          / generator, positional / keyword), through the generator itself (the joined text of what it yields), read back by
           the real parser + list interpretation, and through reformat_when_finished() / value_formatter(..., True) of a
           list view over an arbitrary layout of the same tokens; TOK lines through the FormatterContentToken
           constructors.  code -> spec: random histories of 10-40 calls on random documents (1-3 paragraphs, duplicated
@@ -101,7 +104,7 @@ API surface (notes/API_SURFACE.md)
   Deb822FileElement.new_empty_file, append, iteration, dump(), dump(fd)   replay (end of every ctor path)
   list_view.append_comment(line)                                          NORM replay (entry 2)
   format_field positional / keyword, list / iterator / generator          replay + trace
-  one_value_per_line_trailing_separator called directly                   replay + trace (identity of tokens)
+  one_value_per_line_trailing_separator called directly                   replay + trace (joined text of what it yields)
   reformat_when_finished, value_formatter(f, force_reformat=True), (f, True)  replay (view leg)
   FormatterContentToken.value_token / comment_token / separator_token /   TOK replay
     from_token_or_element, is_* properties, text, str, SPACE / COMMA singletons
@@ -129,8 +132,8 @@ EXTRA = dict(
         "A string handed in as a comment line (field_comment=[...], append_comment) becomes exactly one comment line: used as "
         "given when it starts with '#' and ends with a newline, otherwise trailing blanks are cut and the newline supplied, "
         "'# ' is put in front when the '#' is missing, '' is the empty comment line, an embedded newline is refused and a "
-        "refused call changes nothing. The comment of a written field is what the call says (the same element object kept, "
-        "none, the normalised lines, or the very element handed in; both keywords, an ill-formed element and "
+        "refused call changes nothing. The comment of a written field is what the call says (the same lines kept, "
+        "none, the normalised lines, or the very element object handed in; both keywords, an ill-formed element and "
         "preserve=True on an ambiguous name are refused), position and spelling are kept, nothing else changes, an element "
         "object is in one place only with parent_element naming its holder, and comments move and disappear with their field "
         "under delete / reorder / sort / from_kvpairs; new_empty_paragraph / new_empty_file are empty and independent, from_dict "
@@ -278,6 +281,7 @@ def norm_case(case, entry, seed):
 # ------------------------------------------------------------------ (2) worlds of FieldComment
 
 API_COUNT, FORM_COUNT = {}, {}
+DRIFTS = []
 
 
 def judge(world, edge, res):
@@ -296,6 +300,8 @@ def judge(world, edge, res):
         msgs.append("outcome %s; %s" % (res, d))
     if not edge["k"]["same"] and res == edge["k"]["e"] and world.diff(edge["k"]["w"]) is None:
         return ("known", K_BLANK)
+    if not edge["c"]["same"] and res == edge["c"]["e"] and world.diff(edge["c"]["w"], adopt=True) is None:
+        return ("drift", "a kept comment lives on in a NEW Deb822CommentElement object (same lines): the specification keeps the object")
     return ("viol", msgs[0])
 
 
@@ -341,6 +347,9 @@ def run_edge(scn, edge, cseed, stress, rseed, known):
     if v[0] == "known":
         known.hit(v[1], describe_call(conc, edge["call"]))
         return None
+    if v[0] == "drift":
+        DRIFTS.append(v[1])
+        return None
     return "%s (api %s) on %r: %s" % (describe_call(conc, edge["call"]), getattr(world, "last_api", "-"), CX.clip(conc.file_text(edge["from"]), 300), v[1])
 
 
@@ -356,6 +365,9 @@ def run_path(scn, start, path, cseed, stress, rseed, known, with_file):
         if v is not None and v[0] == "known":
             known.hit(v[1], describe_call(conc, edge["call"]))
             return None                     # the world left the statement's state: the path ends here
+        if v is not None and v[0] == "drift":
+            DRIFTS.append(v[1])
+            return None
         if v is not None:
             return "step %d of a history, %s (api %s): %s" % (i + 1, describe_call(conc, edge["call"]), getattr(world, "last_api", "-"), v[1])
         last = edge["to"]
@@ -369,7 +381,7 @@ def run_path(scn, start, path, cseed, stress, rseed, known, with_file):
 
 
 def strip_edge(e):
-    return {k: e[k] for k in ("from", "call", "res", "to", "a", "k", "file")}
+    return {k: e[k] for k in ("from", "call", "res", "to", "a", "k", "c", "file")}
 
 
 def wkey(w):
@@ -399,9 +411,9 @@ def fmt_case(case, seed, known):
     exp = stream.text_of(name, case["r"]["out"], septok.text)
     if text != exp:
         return "%s returned %r; the specification says %r" % (what, CX.clip(text), CX.clip(exp))
-    gen = FX.generator_pieces(name, septok, stream.toks)
-    if gen != case["r"]["out"]:
-        return "%s: the formatter itself yields %s; the specification says %s" % (what, CX.clip(repr(gen)), CX.clip(repr(case["r"]["out"])))
+    gen = FX.generator_text(name, septok, stream.toks)
+    if name + ":" + gen != exp:
+        return "%s: the formatter called directly yields %r; the specification says %r" % (what, CX.clip(gen), CX.clip(exp[len(name) + 1:]))
     if case["sep"] in ("sp", "cm") and not (case["sep"] == "sp" and any(t[1] == "ww" for t in case["inp"])):
         vals, cmts = FX.reread(text, name, case["sep"])
         wv = [stream.texts[i] for i, t in enumerate(case["inp"]) if t[0] == "V"]
@@ -565,6 +577,9 @@ def corrupt_sf(ev, how):
     out = ev["res"]["out"]
     if ev["res"]["v"] != "ok" or any(y[0].startswith("?") for y in out):
         return None
+    content = [t for t in ev["inp"] if t[0] in ("V", "C")]
+    if not content or content[-1][0] != "V" or any(t[1] in ("lead", "trail", "nohash", "nonl") for t in ev["inp"]):
+        return None                         # outside the specified domain every outcome is accepted: no control from there
     c = copy.deepcopy(ev)
     o = c["res"]["out"]
     if how == "indent":
@@ -633,7 +648,7 @@ def run(ctx):
         return cases, r
 
     def emit_sf():
-        r = ctx.tlc_must_hold("StockFormatMC", sf_cfg(3 if quick else 4, [1, 7] if quick else [1, 2, 9], True), workers=2,
+        r = ctx.tlc_must_hold("StockFormatMC", sf_cfg(3 if quick else 4, [1, 73] if quick else [1, 2, 9, 73], True), workers=2,
                               keep_raw=True, want_tags=set())
         got = read_lines(r.raw_path, ["CASE", "TOK"])
         shutil.rmtree(os.path.dirname(r.raw_path), ignore_errors=True)
@@ -666,7 +681,11 @@ def run(ctx):
     f_norm = pool.submit(emit_norm)
     f_fc = {scn: pool.submit(emit_fc, scn, depth if scn != "ctor" or quick else 3) for scn in ("uniq", "dup", "ctor")}
     f_sf = pool.submit(emit_sf)
-    f_neg = [pool.submit(neg_norm)] + [pool.submit(neg_fc, n, p) for n, p in FC_NEGS] + [pool.submit(neg_sf, b) for b in SF_NEGS]
+    fc_negs, sf_negs = FC_NEGS, SF_NEGS
+    if quick:       # a rotating half of the spec-level negative controls (all of them in the thorough tier)
+        fc_negs = [FC_NEGS[(ctx.seed + k) % len(FC_NEGS)] for k in (0, 2)]
+        sf_negs = [SF_NEGS[(ctx.seed + k) % len(SF_NEGS)] for k in (0, 2)]
+    f_neg = [pool.submit(neg_norm)] + [pool.submit(neg_fc, n, p) for n, p in fc_negs] + [pool.submit(neg_sf, b) for b in sf_negs]
     f_deep = None
     if not quick:
         f_deep = [pool.submit(ctx.tlc_must_hold, "FieldCommentMC", fc_cfg(scn, 3, False), workers=2) for scn in ("uniq", "dup")]
@@ -674,7 +693,7 @@ def run(ctx):
     # ---- code -> spec: record while TLC runs
     t1 = time.time()
     fc_traces, fc_seeds = [], []
-    plan = (["small"] * 130 + ["fields"] * 4 + ["lines"] * 4) if quick else (["small"] * 900 + ["fields"] * 20 + ["lines"] * 20)
+    plan = (["small"] * 110 + ["fields"] * 3 + ["lines"] * 3) if quick else (["small"] * 900 + ["fields"] * 20 + ["lines"] * 20)
     for size in plan:
         tseed = rng.getrandbits(32)
         tr = record_fc(tseed, size, ctx)
@@ -768,11 +787,11 @@ def run(ctx):
                 for e in outs:
                     rec(wkey(e["to"]), acc + [e], d - 1)
             rec(start, [], 2 if quick else 3)
-            if len(paths) > (1500 if quick else 12000):
+            if len(paths) > (1500 if quick else 8000):
                 rng.shuffle(paths)
-                paths = paths[:1500 if quick else 12000]
+                paths = paths[:1500 if quick else 8000]
         else:
-            for _ in range(150 if quick else 1500):
+            for _ in range(150 if quick else 1000):
                 k, acc = start, []
                 for _d in range(depth):
                     outs = by_state.get(k)
@@ -849,7 +868,10 @@ def run(ctx):
         rejected, info, notes, nc = f.result()
         ncontrols += nc
         for tid, kid, l in notes:
-            known.hit(kid, describe_event(fc_traces[base + tid - 1], l - 1))
+            if kid in KNOWN_IDS:
+                known.hit(kid, describe_event(fc_traces[base + tid - 1], l - 1))
+            else:
+                DRIFTS.append("recorded history: " + kid)
         for i in rejected:
             nrej += 1
             if len(ctx.violations) >= 5:
@@ -883,6 +905,9 @@ def run(ctx):
     if fc_traces:
         e = fc_traces[0]["events"][0]
         ctx.sample("recorded event: " + json.dumps(dict(e, obs="..."), separators=(",", ":"), ensure_ascii=False)[:400])
+    for d in sorted(set(DRIFTS)):
+        ctx.drift("%s (%d times)" % (d, DRIFTS.count(d)))
+    del DRIFTS[:]
     ctx.extra["known_findings"] = {k["id"]: {"occurrences": known.hits.get(k["id"], 0), "example": known.example.get(k["id"])} for k in KNOWN}
     tm["total"] = round(time.time() - t0, 1)
     for k in KNOWN:
